@@ -119,6 +119,15 @@ def jobs(tier):
                 for i, (tid, (role, q)) in enumerate(zip(ids, rs)):
                     decls += access(tid, role, q, "bf", i)
                 out.append({"program": prog(H, decls), "families": FAM, "family": f"{cls}/{n}", "directions": "SK", "post": "buffers"})
+    # a buffer that no task touches: its level never moves, so a final level or bound that the initial level misses
+    # makes the problem infeasible (and a second, untouched buffer next to a used one changes nothing)
+    for (cls, kw) in bvs:
+        out.append({"program": prog(3, [fixed("a", 1), new(cls, "bf", name="bf", **kw)]), "families": FAM, "family": f"{cls}/untouched",
+                    "directions": "SK", "post": "buffers"})
+    for (cls, kw) in bvs[::5]:
+        out.append({"program": prog(3, [fixed("a", 1), new("ConcurrentBuffer", "b0", name="b0", initial_level=1), new(cls, "bf", name="bf", **kw),
+                                        con("TaskLoadBuffer", "l0", task=R("a"), buffer=R("b0"), quantity=1)]),
+                    "families": FAM, "family": f"{cls}/untouched+used", "directions": "SK", "post": "buffers"})
     # optional accessor (S/K only; report check skips unscheduled accessors)
     for cls in ("NonConcurrentBuffer", "ConcurrentBuffer"):
         out.append({"program": prog(4, [fixed("a", 1, optional=True), fixed("b", 1), new(cls, "bf", name="bf", initial_level=1, lower_bound=0),
@@ -154,5 +163,5 @@ def confirm(inst):
 
 
 def main(tier):
-    return common.run_space_check("C09", tier, jobs(tier), RULE, ASSUME, budget_s=110 if tier == "quick" else 1500,
+    return common.run_space_check("C09", tier, jobs(tier), RULE, ASSUME, budget_s=480 if tier == "quick" else 3000,
                                   confirm=confirm)
